@@ -181,6 +181,17 @@ CHECKS = {
         design_ref='DESIGN.md §5 C18',
         note='one recorded finding (comment inside the CTE list) is a dedicated clause',
         technique='TLA+ grammar annotations + TLC validation of get_type() results'),
+    'C19': dict(
+        category='model_checking',
+        text=("Frontends.tla enumerates (TLC, exhaustive) every meaningful combination of input form (str, stream, bytes+encoding, "
+              "UTF-8 bytes, non-UTF-8 bytes) x content class (ASCII, Latin-1, BMP, astral, each with and without backslash sequences) "
+              "x encoding x entry point; each case is realised and the result compared with the result for the same text as str; "
+              "parsestream is compared with parse. The CLI's argument table is a TLA+ function from flag choices to the option set "
+              "format() must receive (incl. the type=bool quirk); TLC-simulated flag/channel/encoding cases are run through cli.main "
+              "in-process with byte-backed stdin/stdout or files and compared with format() of the decoded text."),
+        design_ref='DESIGN.md §5 C19',
+        note="Python's codecs are trusted; CLI cases are sampled from a product of about 1.3 million",
+        technique='TLA+ case enumeration of the decode decision tree and CLI table (TLC) replayed on the real front ends'),
     'C20': dict(
         category='model_checking',
         text=("LexerInit.tla models get_default_instance/default_initialization step by step for 2 and 3 threads; TLC checks "
